@@ -193,7 +193,9 @@ class XmlContext:
 
         def get_field_diff(clazz: type) -> int:
             meta = self.cache[clazz]
-            local_names = {var.local_name for var in meta.get_all_vars()}
+            local_names = {
+                var.wrapper or var.local_name for var in meta.get_all_vars()
+            }
             return len(local_names - field_names)
 
         self.build_xsi_cache()
@@ -288,7 +290,9 @@ class XmlContext:
         """
         try:
             meta = self.build(clazz)
-            local_names = {var.local_name for var in meta.get_all_vars()}
+            local_names = {
+                var.wrapper or var.local_name for var in meta.get_all_vars()
+            }
             return not names.difference(local_names)
         except (XmlContextError, NameError, TypeError):
             # The dataclass includes unsupported typing annotations
